@@ -255,12 +255,16 @@ def check_commitment(control: bytes, program: bytes, leaf_hash: bytes) -> bool:
 def bt_as_eval(line: str) -> str:
     """a `bteval` line as the `eval` line on the same program (same engine call, same oracle table)"""
     t = line.split(" ")
+    if t[0] == "bttap":
+        return " ".join(["execwit", "tapscript", *t[1:]])
     return " ".join(["eval", *t[1:8], "0", t[8] if len(t) > 8 else "deny"])
 
 
 def answer(line: str, query: str, vec=None) -> str:
     t = line.split(" ")
     if t[0] == "bteval":
+        return " ".join(t[:8]) + " " + answer(bt_as_eval(line), query).split(" ")[-1]
+    if t[0] == "bttap":
         return " ".join(t[:8]) + " " + answer(bt_as_eval(line), query).split(" ")[-1]
     if t[0] in ("eval", "evalx", "execwit", "execwitx"):
         # EvalScript / ExecuteWitnessScript level: the transaction impl_eval builds (amount 0, prevout script 51, no annex);
@@ -914,6 +918,31 @@ def run_bt(ctx, bt_stream):
     lines.append("bteval v0 STRICTENC,WITNESS_PUBKEYTYPE 000051010551ae - 0 4294967295 1 ask")
     bt_stream(ctx, "bt.eval.sigops", lines)
     bt_stream(ctx, "bt.eval.signed", bt_signed_lines(rng, ctx.n(300, 4000)))
+    # the btclib-shaped TAPSCRIPT model (Model/C08/BtclibTap.lean) against verify_script_path_vc0
+    tl = []
+    for sv, fl, sc, st in CORPUS_EVAL:
+        tl.append(f"bttap {fl} {sc} {hexlist(st)} 0 4294967295 1 1000 ask")
+    tfl = G.flag_sets(rng, 24, ["MINIMALDATA", "DISCOURAGE_UPGRADABLE_NOPS", "CHECKLOCKTIMEVERIFY", "CHECKSEQUENCEVERIFY", "NULLFAIL",
+                                "DISCOURAGE_UPGRADABLE_PUBKEYTYPE", "DISCOURAGE_OP_SUCCESS", "MINIMALIF"])
+    for _ in range(ctx.n(500, 10000)):
+        st = G.init_stack(rng)
+        sc = G.program(rng, True, [G.N if len(x) <= 4 else G.A for x in st])
+        tl.append(f"bttap {rng.choice(tfl)} {hx(sc)} {hexlist(st)} 0 4294967295 1 {rng.choice([0, 49, 50, 99, 100, 1000, 100000])} ask")
+    for sc, st, _label in G.limit_programs(rng):
+        if len(st) <= 1000:
+            tl.append(f"bttap - {hx(sc)} {hexlist(st)} 0 4294967295 1 100000 ask")
+    for sc, w in G.budget_programs():
+        for fl in ("-", "DISCOURAGE_UPGRADABLE_PUBKEYTYPE"):
+            tl.append(f"bttap {fl} {hx(sc)} - 0 4294967295 1 {w} ask")
+    for k, (sc, lt, seq, ver) in enumerate(G.locktime_programs(rng)):
+        if k % 5 == 0:
+            tl.append(f"bttap CHECKLOCKTIMEVERIFY,CHECKSEQUENCEVERIFY {hx(sc + b'\x75\x51')} - {lt} {seq} {ver} 1000 ask")
+    _sl, sw = signed_eval_lines(rng, ctx.n(150, 3000))
+    for ln in sw:
+        t = ln.split(" ")
+        if t[1] == "tapscript":
+            tl.append(" ".join(["bttap", *t[2:]]))
+    bt_stream(ctx, "bt.tapscript", tl, legacy=False)
 
 
 def run_verify(ctx, spec):
